@@ -46,6 +46,15 @@ CLAIMED = {
             'radius 0; allele clustering off; conservation of fragments (inv.conservation) and the schedule-freedom lemma for '
             'whole runs are argued in DESIGN 5/C07 from these obligations, not discharged as one VC.',
             '5/C07, appendix B.5'),
+    'C09': ('Proof for an arbitrary read 1 (symbolic start/end, strand, first/last CIGAR operation, sequence, tags) that '
+            'NlaIIIFragment.identify_site accepts exactly the fragments with the motif at the 5\' end of read 1 (exact, or '
+            'cycle-shifted when allowed), writes the reference coordinate of the recognised CATG including soft clips on '
+            'either strand, rejects (qc-fail, no DS) otherwise; that CHICFragment.identify_site writes the base adjacent to '
+            'the ligated overhang for trimmed and untrimmed layouts, invert_strand only flipping RS; plus mirror and '
+            'layout-agreement lemmas over those postconditions.',
+            'pysam.AlignedSegment modelled as a record of independent fields (stub); reads >= 8 nt without RR/DS/RS/RZ tags; '
+            'well-formed CIGAR ends (M or S); no_overhang / check_motif=False branches not under contract.',
+            '5/C09'),
 }
 
 NOT_YET = 'check not built yet (framework under construction; see DESIGN.md section 5)'
